@@ -165,6 +165,21 @@ fn check_canon64(c: &Canon, cx: &mut Cx) -> Res {
     cx.nt_if(rich(c));
     let a = must(render(&s, "semver", "semver"), &format!("canonical {s} -> semver"))?;
     ensure!(a == s, "canonical SemVer {s:?} converts to SemVer {a:?} (should be unchanged)");
+    // the default input format (auto-detection) reads a canonical SemVer string as SemVer
+    let au = must(render(&s, "auto", "semver"), &format!("canonical {s} (auto) -> semver"))?;
+    ensure!(au == s, "canonical SemVer {s:?}, input format auto, converts to SemVer {au:?} (should be unchanged)");
+    // build identifiers are free text in SemVer: letter case survives (the statement's `+ids`)
+    if let Some((body, build)) = s.split_once('+')
+        && build.bytes().any(|b| b.is_ascii_lowercase())
+    {
+        let up: String = build.char_indices().map(|(i, ch)| if i % 2 == 0 { ch.to_ascii_uppercase() } else { ch }).collect();
+        let su = format!("{body}+{up}");
+        for from in ["semver", "auto"] {
+            let r = must(render(&su, from, "semver"), &format!("canonical {su} ({from}) -> semver"))?;
+            ensure!(r == su, "canonical SemVer {su:?}, input format {from}, converts to SemVer {r:?} (should be unchanged)");
+        }
+        cx.label("mixed-case-build");
+    }
     cx.note(|| s.to_string());
     Ok(())
 }
